@@ -249,6 +249,11 @@ def check_complement(prog, rep, K):
                     "%s / %s" % (a[1], p[1]))
 
 
+def NOT_SELECTION(f):
+    """sinks inside the selection-criterion package belong to C05 (R9-exact-frequency)"""
+    return not f.module.name.startswith("pybrops.breed.prot.sel")
+
+
 def taint_functions(prog, extra_modules=()):
     mods = {"pybrops.popgen.gmat.DenseGenotypeMatrix", "pybrops.popgen.gmat.DensePhasedGenotypeMatrix", "pybrops.model.gmod.DenseAdditiveLinearGenomicModel",
             "pybrops.model.gmod.DenseLinearGenomicModel", "pybrops.model.gmod.DenseAdditiveDominanceLinearGenomicModel", "pybrops.breed.prot.gt.DenseUnphasedGenotyping"}
@@ -311,4 +316,4 @@ def run(prog, rep, tier):
         check_gtcount(prog, rep, K)
         check_complement(prog, rep, K)
         check_accumulators(prog, rep, K, STATS)
-    check_exactness(prog, rep, tier)
+    check_exactness(prog, rep, tier, sink_filter=NOT_SELECTION)
